@@ -458,8 +458,10 @@ func (VaralignSplitter) parseValue(lexer *textproc.Lexer) (string, string, strin
 		return rest[:end], "", ""
 	}
 
-	continuation := rest[backslash:]
-	valueAndSpace := rest[:backslash]
+	// Only the last backslash continues the line, the backslashes
+	// before it are escaped backslashes that belong to the value.
+	continuation := rest[end-1:]
+	valueAndSpace := rest[:end-1]
 	value := rtrimHspace(valueAndSpace)
 	space := valueAndSpace[len(value):]
 	return value, space, continuation
